@@ -22,6 +22,7 @@ import (
 	"sort"
 	"strings"
 	"sync"
+	"syscall"
 	"time"
 )
 
@@ -67,6 +68,8 @@ type driver interface {
 	Batch(seed uint64, wid, batch, count int, deadline time.Time, emit func(*Record))
 	// Replay executes the case (after its prefix) and returns the violation it produced, if any.
 	Replay(rf *ReplayFile) *Violation
+	// GenCase re-derives the explicit case for generator coordinates (used when a worker process died).
+	GenCase(seed uint64, wid, batch, i int) json.RawMessage
 	// Candidates proposes smaller variants of a failing replay file.
 	Candidates(rf *ReplayFile) []*ReplayFile
 	Rule() string
@@ -90,6 +93,8 @@ func main() {
 		workerMain(os.Args[2:])
 	case "replay":
 		replayMain(os.Args[2:])
+	case "gencase":
+		gencaseMain(os.Args[2:])
 	case "pool":
 		poolMain()
 	default:
@@ -142,7 +147,68 @@ func workerMain(args []string) {
 	w.Flush()
 }
 
+func gencaseMain(args []string) {
+	fs := flag.NewFlagSet("gencase", flag.ExitOnError)
+	prop := fs.String("prop", "", "")
+	seed := fs.Uint64("seed", 1, "")
+	wid := fs.Int("wid", 0, "")
+	batch := fs.Int("batch", 0, "")
+	i := fs.Int("i", 0, "")
+	fs.Parse(args)
+	d := drivers[*prop]
+	if d == nil {
+		harnessFatal("unknown property %q", *prop)
+	}
+	os.Stdout.Write(d.GenCase(*seed, *wid, *batch, *i))
+}
+
+// classifyCrash recognises a Go runtime fatal error (not recoverable, kills the
+// process) in a child's stderr. Harness errors are never classified as crashes.
+func classifyCrash(stderr string) (string, bool) {
+	if strings.Contains(stderr, "HARNESS-ERROR") {
+		return "", false
+	}
+	switch {
+	case strings.Contains(stderr, "unexpected fault address"), strings.Contains(stderr, "SIGSEGV"), strings.Contains(stderr, "SIGBUS"):
+		return "crash:sigsegv", true
+	case strings.Contains(stderr, "out of memory"), strings.Contains(stderr, "cannot allocate memory"):
+		return "crash:out-of-memory", true
+	case strings.Contains(stderr, "stack exceeds"):
+		return "crash:stack-overflow", true
+	case strings.Contains(stderr, "concurrent map"):
+		return "crash:concurrent-map-access", true
+	case strings.Contains(stderr, "fatal error:"):
+		return "crash:fatal", true
+	}
+	return "", false
+}
+
+// replayMain: the outer process only supervises; the case runs in an inner child,
+// so that a process-killing fault (SIGSEGV through an unsafe cast, out of memory)
+// is reported as a violation signature instead of taking the harness down.
 func replayMain(args []string) {
+	if os.Getenv("VERIF_REPLAY_INNER") != "1" {
+		self, _ := os.Executable()
+		cmd := exec.Command(self, append([]string{"replay"}, args...)...)
+		cmd.Env = append(os.Environ(), "VERIF_REPLAY_INNER=1")
+		var out, errb bytes.Buffer
+		cmd.Stdout, cmd.Stderr = &out, &errb
+		err := cmd.Run()
+		os.Stdout.Write(out.Bytes())
+		if err == nil {
+			os.Exit(0)
+		}
+		if sig, ok := classifyCrash(errb.String()); ok {
+			fmt.Printf("REPLAY-RESULT sig=%s\n", sig)
+			fmt.Printf("REPLAY-DETAIL %s\n", strings.ReplaceAll(clip(errb.String()), "\n", "\\n"))
+			os.Exit(1)
+		}
+		os.Stderr.Write(errb.Bytes())
+		if ee, ok := err.(*exec.ExitError); ok {
+			os.Exit(ee.ExitCode())
+		}
+		os.Exit(2)
+	}
 	fs := flag.NewFlagSet("replay", flag.ExitOnError)
 	prop := fs.String("prop", "", "")
 	file := fs.String("file", "", "")
@@ -181,6 +247,10 @@ func replayMain(args []string) {
 func gcPolicy(d driver) {
 	if d.ID() != "C14" {
 		debug.SetGCPercent(-1)
+		// a fault in the code under test (garbage length read through an unsafe cast)
+		// must kill this worker, not exhaust the machine
+		lim := syscall.Rlimit{Cur: 12 << 30, Max: 12 << 30}
+		_ = syscall.Setrlimit(syscall.RLIMIT_AS, &lim)
 	}
 }
 
@@ -331,6 +401,7 @@ func coordinator(args []string) {
 				sc := bufio.NewScanner(out)
 				sc.Buffer(make([]byte, 1<<20), 1<<28)
 				gotViol := false
+				lastStart := -1
 				for sc.Scan() {
 					var r Record
 					if err := json.Unmarshal(sc.Bytes(), &r); err != nil {
@@ -339,6 +410,8 @@ func coordinator(args []string) {
 					}
 					a.mu.Lock()
 					switch r.T {
+					case "start":
+						lastStart = r.Runs
 					case "batch":
 						a.runs += int64(r.Runs)
 						a.batches++
@@ -364,6 +437,31 @@ func coordinator(args []string) {
 				err = cmd.Wait()
 				cleanupRaceLogs(*scratch, w, b)
 				if err != nil {
+					if sig, ok := classifyCrash(stderr.String()); ok && lastStart >= 0 {
+						// the process was killed by a fault inside the code under test
+						gc := exec.Command(self, "gencase", "-prop", *prop, "-seed", fmt.Sprint(*seed),
+							"-wid", fmt.Sprint(w), "-batch", fmt.Sprint(b), "-i", fmt.Sprint(lastStart))
+						cs, gerr := gc.Output()
+						if gerr != nil {
+							harnessErr <- fmt.Sprintf("gencase failed: %v", gerr)
+							return
+						}
+						rf := &ReplayFile{Case: cs, TZ: tzFor(d, tzs, w, b)}
+						if lastStart > 0 {
+							rf.Prefix = &Prefix{*seed, w, b, lastStart}
+						}
+						a.mu.Lock()
+						a.viols = append(a.viols, &Record{T: "viol", Wid: w, Batch: b,
+							Viol: &Violation{"crash", sig, "the worker process was killed by a Go runtime fatal error while running this case:\n" + clip(stderr.String())}, Replay: rf})
+						a.runs += int64(lastStart)
+						n := len(a.viols)
+						a.mu.Unlock()
+						if n >= 24 {
+							stopOnce.Do(func() { close(stop) })
+							return
+						}
+						continue
+					}
 					if ee, ok := err.(*exec.ExitError); ok && ee.ExitCode() == 2 || !gotViol {
 						harnessErr <- fmt.Sprintf("worker %d batch %d: %v\n%s", w, b, err, clip(stderr.String()))
 						stopOnce.Do(func() { close(stop) })
@@ -420,7 +518,11 @@ func coordinator(args []string) {
 		rf := rec.Replay
 		rf.Property, rf.Expect, rf.Kind, rf.Detail = d.ID(), sig, rec.Viol.Kind, clip(rec.Viol.Detail)
 		rf.Seed = *seed
-		rf = verifyAndMinimise(self, d, rf, *scratch, minDeadline)
+		md := minDeadline
+		if n >= 6 {
+			md = time.Now() // many signatures: verify the replay of the rest, do not spend the budget minimising them
+		}
+		rf = verifyAndMinimise(self, d, rf, *scratch, md)
 		path := ""
 		if *replayDir != "" {
 			os.MkdirAll(*replayDir, 0o755)
